@@ -150,6 +150,24 @@ pub fn observe(kind: &str, s: &str) -> Value {
             }
             Err(_) => json!(null),
         })),
+        "clientsecret" => (forms!(s, ruma_common::ClientSecret, ruma_common::OwnedClientSecret), acc(|| match <&ruma_common::ClientSecret>::try_from(s) {
+            Ok(x) => json!({"recompose": x.as_str() == s}),
+            Err(_) => json!(null),
+        })),
+        "sessionid" => (forms!(s, ruma_common::SessionId, ruma_common::OwnedSessionId), acc(|| match <&ruma_common::SessionId>::try_from(s) {
+            Ok(x) => json!({"recompose": x.as_str() == s}),
+            Err(_) => json!(null),
+        })),
+        "b64key" => {
+            // a public key as the name of a cross-signing key ID, by itself and behind the algorithm
+            let full = format!("ed25519:{s}");
+            let mut f = forms!(s, ruma_common::Base64PublicKey, ruma_common::OwnedBase64PublicKey);
+            f.push(form("cross_signing_key_id", || <&ruma_common::CrossSigningKeyId>::try_from(full.as_str()).ok().map(|x| x.key_name().as_str().to_owned())));
+            (f, acc(|| match <&ruma_common::Base64PublicKey>::try_from(s) {
+                Ok(x) => json!({"recompose": x.as_str() == s}),
+                Err(_) => json!(null),
+            }))
+        }
         "mxc" => {
             // MxcUri is unchecked at construction: acceptance is validate()
             let f = vec![
@@ -197,6 +215,10 @@ pub fn replay(_args: &[String]) {
     });
 }
 
+fn short_id(s: &str) -> String {
+    if s.len() > 60 { format!("{}..({} bytes)..{}", &s[..20], s.len(), &s[s.len() - 12..]) } else { s.to_owned() }
+}
+
 /// Constructors fed with valid components must produce identifiers their own parser accepts.
 pub fn ctors(_args: &[String]) {
     let mut out = Out::new();
@@ -225,6 +247,44 @@ pub fn ctors(_args: &[String]) {
                 Err(_) => (format!("(rejected {full})"), true),
             }));
         }
+    }
+    // components that are valid by themselves but long: the result must still be an identifier of at most 255 bytes
+    // (or the constructor must refuse)
+    for n in [200usize, 230, 236, 242, 250, 255] {
+        let host = format!("{}.co", "a".repeat(n - 3));
+        let sn: &ServerName = <&ServerName>::try_from(host.as_str()).unwrap();
+        let tag = if n <= 230 { "server-name-of-up-to-230-bytes" } else { "server-name-longer-than-230-bytes" };
+        put(&format!("UserId::new/{tag}"), guard(|| { let x = UserId::new(sn); (short_id(x.as_str()), <&UserId>::try_from(x.as_str()).is_ok()) }));
+        put(&format!("RoomId::new/{tag}"), guard(|| { let x = RoomId::new(sn); (short_id(x.as_str()), <&RoomId>::try_from(x.as_str()).is_ok()) }));
+        put(&format!("EventId::new/{tag}"), guard(|| { let x = EventId::new(sn); (short_id(x.as_str()), <&EventId>::try_from(x.as_str()).is_ok()) }));
+    }
+    let sn: &ServerName = <&ServerName>::try_from("s.co").unwrap();
+    for n in [10usize, 249, 250, 251, 300, 600] {
+        let lp = "a".repeat(n);
+        // "@" + localpart + ":s.co" has n + 6 bytes
+        let fits = n + 6 <= 255;
+        let ok_of = |r: Result<String, ()>| -> (String, bool) {
+            match r {
+                Ok(x) => (short_id(&x), <&UserId>::try_from(x.as_str()).is_ok()),
+                Err(()) => (format!("(rejected localpart of {n} bytes)"), !fits),     // refusing a localpart that fits is wrong too
+            }
+        };
+        put("UserId::parse_with_server_name/long-localpart", guard(|| ok_of(UserId::parse_with_server_name(lp.as_str(), sn).map(|x| x.to_string()).map_err(|_| ()))));
+        put("UserId::parse_with_server_name_rc/long-localpart", guard(|| ok_of(UserId::parse_with_server_name_rc(lp.as_str(), sn).map(|x| x.to_string()).map_err(|_| ()))));
+        put("UserId::parse_with_server_name_arc/long-localpart", guard(|| ok_of(UserId::parse_with_server_name_arc(lp.as_str(), sn).map(|x| x.to_string()).map_err(|_| ()))));
+    }
+    // key IDs from an algorithm and a key name: every value of the (open) algorithm enums is a component
+    for alg in ["ed25519", "org.example.alg", "", "a:b"] {
+        let tag = if alg.is_empty() || alg.contains(':') { "custom-algorithm-empty-or-with-colon" } else { "algorithm-name" };
+        put(&format!("DeviceKeyId::from_parts/{tag}"), guard(|| {
+            let x = ruma_common::DeviceKeyId::from_parts(ruma_common::DeviceKeyAlgorithm::from(alg), <&ruma_common::DeviceId>::from("DEV"));
+            (x.to_string(), <&ruma_common::DeviceKeyId>::try_from(x.as_str()).is_ok_and(|y| y.algorithm().as_ref() == alg && y.key_name() == "DEV"))
+        }));
+        put(&format!("ServerSigningKeyId::from_parts/{tag}"), guard(|| {
+            let v = <&ruma_common::ServerSigningKeyVersion>::try_from("1").unwrap();
+            let x = ServerSigningKeyId::from_parts(ruma_common::SigningKeyAlgorithm::from(alg), v);
+            (x.to_string(), <&ServerSigningKeyId>::try_from(x.as_str()).is_ok_and(|y| y.algorithm().as_ref() == alg && y.key_name() == "1"))
+        }));
     }
     for (alg, name) in [("ed25519", "1"), ("ed25519", "a_b"), ("ed25519", "AAAA")] {
         put("ServerSigningKeyId::from_parts", guard(|| {
